@@ -520,7 +520,13 @@ def main(ck):
                 p = c["points"][pi]
                 g = [x for x in c["groups"] if x["id"] == p["gid"]]
                 qmst = cf["msts"][c["qm"]]
-                if ((cf["typ"] == "hash" or cf.get("dbsk")) and not qmst.get("initnum") and g
+                moved = False
+                if g and p.get("hash") and (g[0].get("alive") or []):
+                    # the row's hash picks another position in the query-time list than the shard the row was written to
+                    al = g[0]["alive"]
+                    sids = [x["id"] for x in g[0]["shards"] or []]
+                    moved = sids[al[int(p["hash"]) % len(al)]] != p["sid"]
+                if ((cf["typ"] == "hash" or cf.get("dbsk")) and not qmst.get("initnum") and g and moved
                         and (g[0].get("walive") or []) != (g[0].get("alive") or []) and ck.match_finding(F_ALIVE)):
                     known_hits[F_ALIVE] = known_hits.get(F_ALIVE, 0) + 1
                     if known_hits[F_ALIVE] == 1:
